@@ -3,7 +3,19 @@ import random, struct, itertools, json, re
 
 PID = 'C20'
 HEADER = []
-RULE = ('netstring: every chunking of short frame sequences (stream <= 11 bytes) and random chunkings of longer ones, fed as raw bytes '
+RULE = ('end of stream: short frame sequences ended at EVERY offset on a scripted chunk stream, the real StdioStream over a stringstream and '
+        'over an fstream of a temporary file, complete frames followed by every kind of remainder (nothing, partial header, partial payload, '
+        'terminator missing, newline/garbage, malformed), every chunking of short truncated streams with and without empty fills, frames '
+        'larger than one 64 KiB fill, the hostile list ended, the limit together with the end, random cuts; the callers\' loop is driven with '
+        'a bound on the number of calls (end=loop instead of a hang) and ConfigObject::RestoreObjects itself runs on truncated state files in a '
+        'forked child under a CPU-time limit; TLS readers with the peer closing (close_notify or dropped transport) at every offset, '
+        'JsonRpc::ReadMessage+DecodeMessage as the reader coroutine runs them; the real writers on payloads of 10^k-1/10^k/10^k+1 bytes '
+        '(k = 1..6, thorough ..7) and around the 1 MiB anonymous limit against the buffered and the coroutine TLS reader (both ends AsioTlsStream); '
+        'JSON: every control character/NUL/DEL/quote/backslash alone and between plain characters as value AND key at nesting 0..3, numbers '
+        'around 2^31/2^32/2^53/2^63/2^64/10^15..10^17 (+-1, +-2, +-1024, +-2048), -0 spellings, huge exponents, 400-digit literals, strings of '
+        '1 KB..30 KB (thorough 1 MB) as value and key, nesting limit-1/limit/limit+1 and up to 1000 (thorough 3000) for JsonDecode AND '
+        'JsonDecodeTrusted, the hostile documents through both decoders; '
+        'netstring: every chunking of short frame sequences (stream <= 11 bytes) and random chunkings of longer ones, fed as raw bytes '
         'and through the real writer, payload lengths around 9/10/99/100/4096/65536+; hostile streams = grammar-aware mutations of valid '
         'frames (leading zero, non-digit header bytes, 16/17/18-byte headers, missing colon/comma, 9/10/11 digit lengths, declared length '
         'around the limit, truncation) and random bytes, for the buffered (FIFO+StreamReadContext) and both AsioTlsStream variants '
@@ -14,7 +26,8 @@ RULE = ('netstring: every chunking of short frame sequences (stream <= 11 bytes)
         'JsonDecode and JsonRpc::DecodeMessage, nesting 1..20000 (both sides of the source\'s limit 128) on a 256 KiB coroutine stack. '
         'non-trivial = at least one frame/value/error observed; distinct = distinct script text')
 TRUSTED = ['model: coq/Codec/NsModel.v (transcription of lib/base/netstring.cpp:26-101,129-277,331-334 and the StreamReadContext '
-           'handling of lib/base/stream.cpp:111-144 with what FillFromStream delivers as an input), coq/Codec/JsModel.v (transcription of '
+           'handling of lib/base/stream.cpp:111-144 with what FillFromStream delivers as an input: a list of fills, then the end; '
+           'ns_loop = the `for (;;) { read; if Eof break; if !NewItem continue; handle }` loop of RestoreObjects/ReplayLog/the CLI readers), coq/Codec/JsModel.v (transcription of '
            'lib/base/json.cpp, of nlohmann serializer::dump_escaped/dump_integer (ensure_ascii), lexer and strict SAX parser, and of '
            'utf8::replace_invalid)',
            'binary64 printing/parsing (nlohmann Grisu2 to_chars, strtod) is a parameter of the JSON model, instantiated by OCaml '
@@ -22,7 +35,14 @@ TRUSTED = ['model: coq/Codec/NsModel.v (transcription of lib/base/netstring.cpp:
            'decoded values always (bit patterns)',
            'harness/ops_codec.cpp replaces global operator new to record the largest single request while a frame is read; '
            'the TLS peer is plain OpenSSL on a socketpair; the server side is the real AsioTlsStream']
-ASSUMPTIONS = ['for non-integral or out-of-64-bit-range finite doubles: printing is inverted by parsing (Section hypothesis js_fparse_fprint; '
+ASSUMPTIONS = ['StreamReadContext::FillFromStream returns false exactly when no byte arrived and the stream reports EOF, and appends what arrived '
+               'otherwise (lib/base/stream.cpp:111-137, not modelled below that line; exercised on three stream types)',
+               'source facts (tools/facts_c20.py -> Facts_c20): digit limits, limit tests, default/anonymous/endpoint maxMessageLength, the plain '
+               'writer, the callers of the buffered reader, both JSON decoders and the decoder RestoreObject uses are recognised by regular '
+               'expressions over the source text; an unrecognised shape degrades the limit theorems to True (listed by srcfacts)',
+               'js_long / ns_wbig (payloads built inside the harness): the expectation is computed from the model on the pattern / from the '
+               'theorems C20_ns_writer_boundaries and C20_json_roundtrip, not by running the model on the whole payload',
+               'for non-integral or out-of-64-bit-range finite doubles: printing is inverted by parsing (Section hypothesis js_fparse_fprint; '
                'exhibited on every generated double by the real round trip)',
                'the ill-formed-UTF-8 test of the nlohmann lexer/serializer never fires after Utility::ValidateUTF8 '
                '(both accept exactly well-formed UTF-8; exercised, not proved)',
@@ -155,9 +175,128 @@ def gen_netstring(rnd, tier, cases):
         cases.append(ns_case(-1, [], rand_chunks(rnd, s, 5), 'ns-random-bytes', declare=False))
 
 
-def nss_case(max_, chunks, fam, mode=None, rnd=None):
+# ---- the buffered reader up to the END of the stream (the callers' loop)
+REMAINDERS = [b'', b'1', b'12', b'123456789', b'5:', b'5:he', b'5:hello', b'0:', b'\n', b'\r\n', b' ', b'abc', b'\x00', b'abcdefghijklmnopq',
+              b'7', b'10:012345678', b'10:0123456789',
+              # malformed: the loop must end with the reader's exception
+              b'3:abcd', b':', b'01:', b'1234567890:', b'abcdefghijklmnopqr', b'5:hello;', b'00', b'1:a;']
+
+
+def eof_line(max_, mode, chunks):
+    return 'ns_eof max=%d mode=%s %s' % (max_, mode, ','.join(hx(c) for c in chunks))
+
+
+def with_empty_chunks(rnd, chunks):
+    out = []
+    for c in chunks:
+        if rnd.random() < 0.15:
+            out.append(b'')
+        out.append(c)
+    return out
+
+
+def gen_eof(rnd, tier, cases):
+    big = tier != 'quick'
+    seqs = [[b'hi'], [b''], [b'a', b''], [b'hi', b'abc'], [b'0123456789'], [b'', b'', b'x'], [b'1:a,'], [b':', b','], [b'hello world!']]
+    # every frame sequence ended at EVERY offset, on every kind of stream
+    for fr in seqs:
+        s = b''.join(nsw(p) for p in fr)
+        for mode in ('chunk', 'stdio', 'file'):
+            lines = []
+            for cut in range(len(s) + 1):
+                t = s[:cut]
+                if mode == 'chunk':
+                    how = rnd.random()
+                    ch = [t] if how < 0.3 else ([t[j:j + 1] for j in range(len(t))] or [b'']) if how < 0.6 else rand_chunks(rnd, t, 3)
+                    ch = with_empty_chunks(rnd, ch)
+                else:
+                    ch = [t]
+                lines.append(eof_line(-1, mode, ch))
+            cases.append({'lines': lines, 'tags': {'family': 'ns-eof-every-offset'}})
+    # complete frames followed by every kind of remainder
+    for rem in REMAINDERS:
+        lines = []
+        for fr in ([], [b'ok'], [b'', b'xyz']):
+            s = b''.join(nsw(p) for p in fr) + rem
+            lines.append(eof_line(-1, 'chunk', [s] if s else [b'']))
+            lines.append(eof_line(-1, 'chunk', with_empty_chunks(rnd, rand_chunks(rnd, s, 2))))
+            lines.append(eof_line(-1, rnd.choice(('stdio', 'file')), [s]))
+        cases.append({'lines': lines, 'tags': {'family': 'ns-eof-remainder'}})
+    # every chunking (with and without an empty fill in front of the end) of short truncated streams
+    for s in (b'1:a,1', b'1:a,2:b', b'0:,0:', b'2:ab', b'1:a,\n', b'1:a;', b'01:a,'):
+        lines = []
+        for ch in chunkings(s):
+            lines.append(eof_line(-1, 'chunk', ch))
+            if rnd.random() < 0.25:
+                lines.append(eof_line(-1, 'chunk', ch + [b'']))
+        for i in range(0, len(lines), 16):
+            cases.append({'lines': lines[i:i + 16], 'tags': {'family': 'ns-eof-chunking-exhaustive'}})
+    # hostile streams that simply end
+    for i in range(0, len(HOSTILE_NS), 8):
+        cases.append({'lines': [eof_line(-1, rnd.choice(('chunk', 'stdio', 'file')), [h]) for h in HOSTILE_NS[i:i + 8]] +
+                               [eof_line(4, 'chunk', rand_chunks(rnd, b'1:a,' + h, 3)) for h in HOSTILE_NS[i:i + 8]],
+                      'tags': {'family': 'ns-eof-hostile'}})
+    # the limit together with the end of the stream (data_length = len + 1 is compared)
+    lines = []
+    for mx in (0, 1, 2, 5):
+        for n in (mx - 1, mx, mx + 1):
+            if n >= 0:
+                s = nsw(b'y' * n)
+                for cut in (len(s), len(s) - 1, max(0, len(s) - n - 1)):
+                    lines.append(eof_line(mx, rnd.choice(('chunk', 'file')), [b'1:a,'[:4 if mx >= 2 else 0] + s[:cut]]))
+    cases.append({'lines': lines, 'tags': {'family': 'ns-eof-limit'}})
+    # random frame sequences, random cut, random remainder, random chunking
+    for i in range(240 if big else 60):
+        lines = []
+        for _ in range(5):
+            fr = [rand_payload(rnd) for _ in range(rnd.randint(0, 4))]
+            s = b''.join(nsw(p) for p in fr)
+            k = rnd.random()
+            if k < 0.5 and s:
+                s = s[:rnd.randrange(len(s) + 1)]
+            elif k < 0.75:
+                s += rnd.choice(REMAINDERS)
+            elif k < 0.9:
+                s = mutate(rnd, s) if s else s
+            mode = rnd.choice(('chunk', 'chunk', 'stdio', 'file'))
+            ch = with_empty_chunks(rnd, rand_chunks(rnd, s, rnd.choice((1, 3, 10, 100)))) if mode == 'chunk' else [s]
+            lines.append(eof_line(rnd.choice((-1, -1, -1, 12, 101)), mode, ch))
+        cases.append({'lines': lines, 'tags': {'family': 'ns-eof-random'}})
+    # frames larger than one fill (4 KiB reads, 64 KiB bursts) cut inside the payload / before the terminator / after it
+    for n in (5000, 70000) + ((140000,) if big else ()):
+        p = (bytes(rnd.randrange(256) for _ in range(61)) * (n // 61 + 1))[:n]
+        s = nsw(b'first') + nsw(p)
+        lines = [eof_line(-1, mode, [s[:cut]]) for mode, cut in (('file', len(s)), ('file', len(s) - 1), ('stdio', len(s) - n // 2), ('file', 4096 + 8), ('chunk', len(s) - 2))]
+        cases.append({'lines': lines, 'tags': {'family': 'ns-eof-large'}})
+    # the production loop itself: ConfigObject::RestoreObjects on a state file that ends anywhere (bounded: forked child, CPU limit)
+    rec = b'{"type":"VerifNoSuchType","name":"x","update":{}}'
+    good = nsw(rec) + nsw(rec)
+    conts = [good, good[:-1], good[:len(good) // 2], good[:len(nsw(rec)) + 1], good + b'\n', good + b'7', b'', b'\n', good + b'3:abcd', good[:3]]
+    for i in range(0, len(conts), 5):
+        cases.append({'lines': ['ns_restore ' + hx(c) for c in conts[i:i + 5]], 'tags': {'family': 'ns-eof-restoreobjects'}})
+
+
+def gen_writer(rnd, tier, cases):
+    """the real writers around every digit-count boundary of the length prefix (payload made inside the harness) against the
+    real readers, and around the 1 MiB limit of anonymous connections"""
+    big = tier != 'quick'
+    M = 1 << 20
+    for k in range(1, 8 if big else 7):
+        lines = []
+        for n in (10 ** k - 1, 10 ** k, 10 ** k + 1):
+            lines.append('ns_wbig n=%d via=buf max=-1' % n)
+            lines.append('ns_wbig n=%d via=tls max=%d' % (n, rnd.choice((-1, M)) if n <= M else -1))
+        cases.append({'lines': lines, 'tags': {'family': 'ns-writer-boundaries'}})
+    lines = ['ns_wbig n=0 via=buf max=-1', 'ns_wbig n=0 via=tls max=0', 'ns_wbig n=1 via=tls max=0', 'ns_wbig n=0 via=buf max=0', 'ns_wbig n=0 via=buf max=1']
+    for n in (M - 1, M, M + 1):
+        lines.append('ns_wbig n=%d via=tls max=%d' % (n, M))
+        lines.append('ns_wbig n=%d via=buf max=%d' % (n, M))
+    cases.append({'lines': lines, 'tags': {'family': 'ns-writer-limit'}})
+
+
+def nss_case(max_, chunks, fam, mode=None, rnd=None, close='clean'):
     modes = [mode] if mode else ['sync', 'co']
-    lines = ['nss_read max=%d mode=%s %s' % (max_, m, ','.join(hx(c) for c in chunks)) for m in modes]
+    lines = ['nss_read max=%d mode=%s close=%s %s' % (max_, m, close, ','.join(hx(c) for c in chunks)) for m in modes]
     return {'lines': lines, 'tags': {'family': fam}}
 
 
@@ -174,6 +313,29 @@ def gen_stream(rnd, tier, cases):
         fr = [rand_payload(rnd, rnd.choice((0, 1, 3, 10))) for _ in range(rnd.randint(1, 3))]
         s = mutate(rnd, b''.join(nsw(p) for p in fr))
         cases.append(nss_case(rnd.choice((-1, 3, 11)), rand_chunks(rnd, s, rnd.choice((2, 50))), 'nss-hostile', mode=rnd.choice(('sync', 'co'))))
+    # the peer closes at EVERY offset of a frame sequence (cleanly with close_notify, or by dropping the transport): never a hang,
+    # never a partial message, the frames before the cut are delivered
+    for fr in ([b'hi', b''], [b'0123456789', b'x']):
+        s = b''.join(nsw(p) for p in fr)
+        lines = []
+        for cut in range(len(s) + 1):
+            t = s[:cut]
+            ch = rand_chunks(rnd, t, rnd.choice((1, 3, 50)))
+            lines.append('nss_read max=-1 mode=%s close=%s %s' % (rnd.choice(('sync', 'co')), rnd.choice(('clean', 'abrupt')), ','.join(hx(c) for c in ch)))
+        for i in range(0, len(lines), 6):
+            cases.append({'lines': lines[i:i + 6], 'tags': {'family': 'nss-peer-closes'}})
+    # JsonRpc::ReadMessage + DecodeMessage as the connection's reader coroutine runs them, peer closing anywhere
+    msgs = [b'{"jsonrpc":"2.0","method":"event::Heartbeat","params":{"timeout":120}}', b'{}', b'[1]', b'{"a":', b'{"k":"\\u00e4\\n"}', b'null']
+    for i in range(40 if big else 14):
+        fr = [rnd.choice(msgs) for _ in range(rnd.randint(1, 3))]
+        s = b''.join(nsw(p) for p in fr)
+        lines = []
+        for _ in range(3):
+            k = rnd.random()
+            t = s if k < 0.3 else s[:rnd.randrange(len(s) + 1)] if k < 0.8 else mutate(rnd, s)
+            lines.append('nss_msg max=%d mode=%s close=%s %s' % (rnd.choice((-1, 1 << 20, 20)), rnd.choice(('sync', 'co')), rnd.choice(('clean', 'abrupt')),
+                                                               ','.join(hx(c) for c in rand_chunks(rnd, t, rnd.choice((2, 20, 200))))))
+        cases.append({'lines': lines, 'tags': {'family': 'nss-messages'}})
     # the limit is enforced before the payload is read (1 MiB for anonymous peers)
     M = 1 << 20
     for n, payload in ((M + 1, 4096), (M + 1, 0), (M, 100), (999999999, 4096), (999999999, 0), (M * 2, 70000)):
@@ -389,13 +551,98 @@ def gen_json_hostile(rnd, tier, cases):
         cases.append({'lines': ['js_deep n=%d close=%d kind=%s mode=%s' % (n, close, kind, mode)], 'tags': {'family': 'js-nesting-deep'}})
 
 
+def nest_value(v, depth, kind):
+    """v wrapped depth times: 'a' arrays, 'o' dictionaries (key 'k'), 'm' alternating"""
+    return chain(depth, v, kind)
+
+
+def gen_json_boundaries(rnd, tier, cases):
+    big = tier != 'quick'
+    # every control character, NUL, DEL, quote, backslash: alone and between "plain" characters, as a string value AND as a
+    # dictionary key, at nesting levels 0..3 inside arrays, dictionaries and both (through both decoders)
+    for c in list(range(0, 0x21)) + [0x22, 0x5c, 0x7f]:
+        lines = []
+        for body in (bytes([c]), b'a' + bytes([c]) + b'b', b'x y' + bytes([c]), bytes([c]) + b'-.'):
+            h = body.hex()
+            depth = rnd.choice((0, 1, 2, 3))
+            kind = rnd.choice('aom')
+            lines.append('js_rt cmp=1 dec=%s %s' % (rnd.choice(('net', 'trusted')), nest_value('"%s"' % h, depth, kind)))
+            lines.append('js_rt cmp=1 dec=%s %s' % (rnd.choice(('net', 'trusted')), nest_value('{%s:n}' % h, depth, kind)))
+        lines.append('js_rt cmp=1 [{%s:"%s"},"%s"]' % (bytes([c]).hex(), bytes([c]).hex(), (b'ab' + bytes([c])).hex()))
+        cases.append({'lines': lines, 'tags': {'family': 'js-control-chars'}})
+    # numbers at the int64 / uint64 / 2^53 boundaries (as values: the double nearest to the decimal), -0, extreme magnitudes
+    edge = []
+    for b in (2 ** 53, 2 ** 63, 2 ** 64, 2 ** 31, 2 ** 32, 10 ** 15, 10 ** 16, 10 ** 17):
+        for d in (-2, -1, 0, 1, 2, 1024, 2048, -1024, -2048):
+            edge += [b + d, -(b + d)]
+    lines = ['js_rt cmp=%d i%d' % (1 if -2.0 ** 63 <= float(i) < 2.0 ** 64 else 0, i) for i in sorted(set(edge))]
+    for i in range(0, len(lines), 20):
+        cases.append({'lines': lines[i:i + 20], 'tags': {'family': 'js-number-boundaries'}})
+    texts = [b'9007199254740991', b'9007199254740992', b'9007199254740993', b'-9007199254740993', b'9223372036854775807', b'9223372036854775808',
+             b'9223372036854775809', b'-9223372036854775808', b'-9223372036854775809', b'18446744073709551615', b'18446744073709551616',
+             b'18446744073709551617', b'-18446744073709551615', b'-0', b'-0.0', b'-0e0', b'-0E-0', b'0e0', b'0E+0', b'-0.0e-0', b'[-0]', b'{"a":-0}',
+             b'1e308', b'1e309', b'-1e308', b'-1e309', b'1.7976931348623157e308', b'1.7976931348623158e308', b'1.797693134862315807e308',
+             b'1e-323', b'1e-324', b'1e-400', b'-1e-400', b'4.9406564584124654e-324', b'2.2250738585072014e-308', b'2.2250738585072011e-308',
+             b'1e999999999', b'1e-999999999', b'1E+9999999999999999999', b'1e-9999999999999999999', b'0e999999999999', b'0.0e-999999999999',
+             b'123456789e-9999999', b'9' * 400, b'-' + b'9' * 400, b'0.' + b'0' * 400 + b'1', b'1' + b'0' * 400 + b'e-400', b'9' * 20 + b'.5',
+             b'1.0e+00', b'1.5E+1', b'100e-2', b'0.5e1', b'9007199254740993.0', b'18446744073709551616.0', b'1e19', b'1e20', b'-1e19']
+    for dec in ('net', 'trusted'):
+        for i in range(0, len(texts), 20):
+            cases.append({'lines': ['js_dec dec=%s %s' % (dec, hx(t)) for t in texts[i:i + 20]], 'tags': {'family': 'js-number-boundaries'}})
+    # very long strings (values and keys): plain ASCII, all-escapes, multi-byte, mixed
+    for n in (1000, 4096):
+        plain = (b'abcdefghijklmnopqrstuvwxyz0123456789 ' * (n // 37 + 1))[:n]
+        esc = (bytes(range(0, 0x20)) + b'"\\/' * 3)
+        esc = (esc * (n // len(esc) + 1))[:n]
+        multi = ('\u00e4\u20ac\U0001f600x' * (n // 4 + 1))[:n].encode('utf-8')
+        lines = ['js_rt cmp=1 "%s"' % plain.hex(), 'js_rt cmp=1 dec=trusted "%s"' % esc.hex(), 'js_rt cmp=1 "%s"' % multi.hex(),
+                 'js_rt cmp=1 {%s:"%s"}' % (plain.hex(), (plain[:100] + b'\x00' + plain[100:200]).hex())]
+        if n <= 1000:
+            lines.append('js_rt cmp=1 {%s:[{%s:n}]}' % (esc.hex(), multi.hex()))
+        cases.append({'lines': lines, 'tags': {'family': 'js-long-strings'}})
+    # ... and really long ones (a pattern repeated inside the harness; expectation from the model on the pattern + the round-trip theorem)
+    pats = [b'abcdefghijklmnopqrstuvwxyz0123456789 ', bytes(range(0, 0x20)) + b'"\\/', '\u00e4\u20ac\U0001f600x'.encode('utf-8'), b'plain\x00plain', b'\x7f', b'a']
+    for reps in (1, 2, 1000, 30000) + ((1000000,) if big else ()):
+        lines = []
+        for pat in pats:
+            if reps * len(pat) > 40000000:
+                continue
+            lines.append('js_long reps=%d where=%s dec=%s %s' % (reps, rnd.choice(('val', 'key')), rnd.choice(('net', 'trusted')), pat.hex()))
+        cases.append({'lines': lines, 'tags': {'family': 'js-long-strings'}})
+    # nesting at limit-1 / limit / limit+1 (and far beyond, on the main stack) for BOTH decoders: JsonDecode refuses from
+    # limit+1 on, JsonDecodeTrusted (the state file's) reads back whatever JsonEncode wrote
+    for n in (127, 128, 129, 130, 256, 1000) + ((3000,) if big else ()):
+        for kind in 'ao':
+            cases.append({'lines': ['js_deep n=%d close=1 kind=%s mode=plain dec=trusted' % (n, kind),
+                                    'js_deep n=%d close=1 kind=%s mode=plain dec=net' % (n, kind),
+                                    'js_deep n=%d close=0 kind=%s mode=plain dec=trusted' % (n, kind)], 'tags': {'family': 'js-nesting-trusted'}})
+    for d in (63, 64, 127, 128):
+        for kind in 'aom':
+            cases.append({'lines': ['js_rt cmp=1 dec=%s %s' % (dec, chain(d - 1, '[]', kind)) for dec in ('net', 'trusted')] +
+                                   ['js_rt cmp=1 dec=trusted %s' % chain(d, '"%s"' % b'a\x00b'.hex(), kind)], 'tags': {'family': 'js-nesting-trusted'}})
+    for d in (129, 130, 200, 500):
+        for kind in 'aom':
+            cases.append({'lines': ['js_rt cmp=1 dec=trusted %s' % chain(d - 1, '{}', kind), 'js_rt cmp=1 dec=trusted %s' % chain(d, 'i%d' % rnd.choice(INTS), kind)],
+                          'tags': {'family': 'js-nesting-trusted'}})
+    # the hostile documents through the second decoder as well
+    cases.append({'lines': ['js_dec dec=trusted ' + hx(h) for h in HOSTILE_JSON], 'tags': {'family': 'js-hostile-fixed'}})
+    for i in range(600 if big else 120):
+        doc = rand_doc(rnd, rnd.choice((1, 2, 3))).encode('utf-8', 'surrogatepass')
+        if rnd.random() < 0.7:
+            doc = mutate_json(rnd, doc)
+        cases.append({'lines': ['js_dec dec=trusted ' + hx(doc)], 'tags': {'family': 'js-hostile-mutated'}})
+
+
 def generate(seed, tier):
     rnd = random.Random(seed)
     cases = []
     gen_netstring(rnd, tier, cases)
+    gen_eof(rnd, tier, cases)
+    gen_writer(rnd, tier, cases)
     gen_stream(rnd, tier, cases)
     gen_json_rt(rnd, tier, cases)
     gen_json_hostile(rnd, tier, cases)
+    gen_json_boundaries(rnd, tier, cases)
     return cases
 
 
@@ -409,7 +656,7 @@ def classify(case, detail, impl_lines):
         if m and int(m.group(1)) >= 2000 and 'CRASH' in detail:
             return 'deep-nesting-stack-overflow'
         return 'crash'
-    for k, v in (('ns-chunking', 'chunking'), ('ns-stream allocation', 'limit'), ('ns-stream', 'stream-framing'), ('ns-buffered', 'buffered-framing'),
+    for k, v in (('ns-eof', 'eof-termination'), ('ns-chunking', 'chunking'), ('ns-stream allocation', 'limit'), ('ns-stream', 'stream-framing'), ('ns-buffered', 'buffered-framing'),
                  ('ns-write', 'writer'), ('json-roundtrip', 'json-roundtrip'), ('json-decode', 'json-decode'), ('json-message', 'json-decode'),
                  ('json-deep', 'json-nesting')):
         if detail.startswith(k):
@@ -422,7 +669,8 @@ def keep_line(l):
 
 
 def extra_stats(cases, impl):
-    st = {'frames_delivered': 0, 'buffered_errors': 0, 'stream_errors': 0, 'stream_short': 0, 'json_values_roundtripped': 0,
+    st = {'eof_loops_ended_eof': 0, 'eof_loops_ended_err': 0, 'eof_loops_not_ended': 0, 'restoreobjects_runs': 0, 'writer_boundary_runs': 0, 'long_strings': 0,
+          'frames_delivered': 0, 'buffered_errors': 0, 'stream_errors': 0, 'stream_short': 0, 'json_values_roundtripped': 0,
           'json_decode_ok': 0, 'json_decode_err': 0, 'crash_lines': 0}
     for c in cases:
         for l in impl.get(c['id'], []):
@@ -432,7 +680,17 @@ def extra_stats(cases, impl):
                     st['frames_delivered'] += m.group(1).count(',') + 1
                 if 'st=err' in l:
                     st['buffered_errors'] += 1
-            elif l.startswith('nss_read'):
+            elif l.startswith('ns_eof'):
+                st['eof_loops_ended_eof'] += 'end=eof' in l
+                st['eof_loops_ended_err'] += 'end=err' in l
+                st['eof_loops_not_ended'] += 'end=loop' in l
+            elif l.startswith('ns_restore'):
+                st['restoreobjects_runs'] += 1
+            elif l.startswith('ns_wbig'):
+                st['writer_boundary_runs'] += 1
+            elif l.startswith('js_long'):
+                st['long_strings'] += 1
+            elif l.startswith('nss_read') or l.startswith('nss_msg'):
                 st['stream_errors'] += 'end=err' in l
                 st['stream_short'] += 'end=short' in l
             elif l.startswith('js_rt enc'):
